@@ -131,16 +131,32 @@ def run(tier, v):
     lib["sq_h1_first"] = tcp_conn(52, [Rq1], port=80, resp=b"HTTP/1.1 200 OK\r\nServer: srv-first\r\n\r\nok", **sq)
     lib["sq_h1_sequel"] = tcp_conn(53, two(Rq2, 25), port=80, resp=b"HTTP/1.1 404 Not Found\r\nServer: srv-sequel\r\n\r\nno", **sq)
     sequels = {"tls": [("sq_tls_first", "sq_tls_sequel")], "http": [("sq_h1_first", "sq_h1_sequel")], "uni": [("sq_tls_first", "sq_tls_sequel"), ("sq_h1_first", "sq_h1_sequel")]}
+    # connections with independently drawn features (lib/props/traffic.py): address family and form, ports, TTL, TOS, fragment word,
+    # IP options, MAC addresses, SYN options, timestamps, sequence numbers at the wrap, message shapes, segmentation
+    from props import traffic
+    ipid = [20000]
+
+    def nid():
+        ipid[0] += 1
+        return ipid[0]
+    for k in range(3):
+        for kind, nm in (("tcp", "rx_tcp"), ("http", "rx_h1"), ("tls", "rx_tls")):
+            rc = traffic.connection(rng, 700 + 10 * k + len(nm), kind, nid, maxpieces=2)
+            lib["%s_%d" % (nm, k)] = {"ip": rc["eps"][0] + ">" + rc["eps"][1], "eps": rc["eps"], "frames": rc["frames"]}
     for c in lib.values():
         # drop the empty data segment of plain handshakes
         c["frames"] = [f for f in c["frames"] if not (len(f) == 54 and f[47] == 0x18)]
     sets = {
         "http": [("h2_ins_ref", "h2_bare_ref"), ("h2_zero", "h2_legit"), ("h2_ins_ref", "h2_legit"), ("h1", "h2_bare_ref"), ("h2_bare_ref", "h2_ins_ref", "h2_zero"), ("h1", "h2_zero", "h2_legit"),
                  ("h2_zero_fail", "h2_legit"), ("h2_ins_fail", "h2_bare_ref"), ("h2_zero_fail", "h2_ins_ref", "h2_ins_fail")]
-                + [("nc_h1", "nc_h1" + x) for x in ("_dport", "_cport", "_sip", "_cip", "_mirror", "_swaphosts")],
-        "tls": [("tls_a", "tls_b"), ("tls_a", "h1"), ("tls_a", "tls_b", "h2_legit")] + [("nc_tls", "nc_tls" + x) for x in ("_dport", "_cport", "_sip", "_cip", "_mirror", "_swaphosts")],
-        "tcp": [("tcp_a", "tcp_b"), ("tcp_a", "h1"), ("tcp_a", "tls_a", "tcp_b")] + [("nc_tcp", "nc_tcp" + x) for x in ("_dport", "_cport", "_sip", "_cip", "_mirror", "_swaphosts")],
-        "uni": [("tcp_a", "tls_a", "h2_ins_ref"), ("h2_ins_ref", "h2_bare_ref"), ("h1", "tls_b", "h2_zero"), ("h2_zero", "h2_legit"), ("h2_zero_fail", "h2_legit"), ("h2_ins_fail", "h2_bare_ref"), ("nc_tls", "nc_tls_dport"), ("nc_h1", "nc_h1_cport"), ("nc_tls", "nc_h1_sip")],
+                + [("nc_h1", "nc_h1" + x) for x in ("_dport", "_cport", "_sip", "_cip", "_mirror", "_swaphosts")]
+                + [("rx_h1_0", "rx_h1_1"), ("rx_h1_1", "rx_h1_2"), ("rx_h1_2", "h2_legit")],
+        "tls": [("tls_a", "tls_b"), ("tls_a", "h1"), ("tls_a", "tls_b", "h2_legit")] + [("nc_tls", "nc_tls" + x) for x in ("_dport", "_cport", "_sip", "_cip", "_mirror", "_swaphosts")]
+               + [("rx_tls_0", "rx_tls_1"), ("rx_tls_1", "rx_tls_2")],
+        "tcp": [("tcp_a", "tcp_b"), ("tcp_a", "h1"), ("tcp_a", "tls_a", "tcp_b")] + [("nc_tcp", "nc_tcp" + x) for x in ("_dport", "_cport", "_sip", "_cip", "_mirror", "_swaphosts")]
+               + [("rx_tcp_0", "rx_tcp_1"), ("rx_tcp_1", "rx_tcp_2"), ("rx_tcp_0", "rx_h1_0")],
+        "uni": [("tcp_a", "tls_a", "h2_ins_ref"), ("h2_ins_ref", "h2_bare_ref"), ("h1", "tls_b", "h2_zero"), ("h2_zero", "h2_legit"), ("h2_zero_fail", "h2_legit"), ("h2_ins_fail", "h2_bare_ref"), ("nc_tls", "nc_tls_dport"), ("nc_h1", "nc_h1_cport"), ("nc_tls", "nc_h1_sip"),
+                ("rx_tcp_0", "rx_tls_0"), ("rx_h1_0", "rx_tls_1"), ("rx_h1_1", "rx_tcp_2")],
     }
     cap = 4000 if tier == "thorough" else 150
     lines, meta = [], {}
